@@ -73,10 +73,10 @@ func (w *World) Step(kind string) {
 		a := w.anyAcct("faucet")
 		d := pickOf(w, "faucetdenom", BankDenoms)
 		w.Faucet(a, sdk.NewCoins(sdk.NewInt64Coin(d, int64(1+w.intn("faucetamt", 1_000_000_000)))))
-	case "bulkBasket", "bulkOrders", "bulkAttest", "bulkHolders":
+	case "bulkBasket", "bulkOrders", "bulkAttest", "bulkHolders", "bulkBook":
 		// a macro step runs at most once per history (they are expensive and make every later step
 		// more expensive); a second draw is an ordinary step
-		if w.Flags[map[string]string{"bulkBasket": "bulk-basket", "bulkOrders": "bulk-orders", "bulkAttest": "bulk-attest", "bulkHolders": "bulk-holders"}[kind]] {
+		if w.Flags[map[string]string{"bulkBasket": "bulk-basket", "bulkOrders": "bulk-orders", "bulkAttest": "bulk-attest", "bulkHolders": "bulk-holders", "bulkBook": "bulk-book"}[kind]] {
 			w.Step(w.Profile.drawKind(w.T))
 			return
 		}
@@ -89,6 +89,8 @@ func (w *World) Step(kind string) {
 			w.bulkAttest()
 		case "bulkHolders":
 			w.bulkHolders()
+		case "bulkBook":
+			w.bulkBook()
 		}
 	case "speculate":
 		w.speculate()
@@ -377,6 +379,35 @@ func (w *World) bulkOrders() {
 			made++
 		}
 		w.Deliver("sell", &markettypes.MsgSell{Seller: b.Addr.String(), Orders: orders})
+	}
+}
+
+// bulkBook is a macro step: the holders of up to two batches hand a little to every user account and every account
+// lists a little of each: an order book with many distinct (seller, batch) pairs, as a sweep over it needs.
+func (w *World) bulkBook() {
+	bs := w.balances(true)
+	if len(bs) == 0 || len(w.S.AllowedDenoms) == 0 {
+		w.Step("createBatch")
+		return
+	}
+	w.Flags["bulk-book"] = true
+	denom := w.allowedDenom("bb.denom")
+	seen := map[uint64]bool{}
+	for k := 0; k < 2; k++ {
+		b := pickOf(w, fmt.Sprintf("bb.hold%d", k), bs)
+		if seen[b.Batch.Key] || b.Tradable.Cmp(big.NewRat(1, 1)) < 0 {
+			continue
+		}
+		seen[b.Batch.Key] = true
+		for _, a := range w.Accts {
+			if !a.Equals(b.Addr) {
+				w.Deliver("send", &basetypes.MsgSend{Sender: b.Addr.String(), Recipient: a.String(), Credits: []*basetypes.MsgSend_SendCredits{{BatchDenom: b.Batch.Denom, TradableAmount: "0.1"}}})
+			}
+		}
+		for i, a := range w.Accts {
+			ask := sdk.NewCoin(denom, sdk.NewInt(int64(1+w.intn("bb.ask", 20))))
+			w.Deliver("sell", &markettypes.MsgSell{Seller: a.String(), Orders: []*markettypes.MsgSell_Order{{BatchDenom: b.Batch.Denom, Quantity: "0.05", AskPrice: &ask, DisableAutoRetire: i%2 == 0}}})
+		}
 	}
 }
 
